@@ -1105,11 +1105,13 @@ class Transport(threading.Thread, ClosingContextManager):
                 m.add_string(src_addr[0])
                 m.add_int(src_addr[1])
             chan = Channel(chanid)
-            self._channels.put(chanid, chan)
-            self.channel_events[chanid] = event = threading.Event()
-            self.channels_seen[chanid] = True
+            # complete before it is visible: the transport thread's shutdown
+            # walks over the registered channels without taking this lock
             chan._set_transport(self)
             chan._set_window(window_size, max_packet_size)
+            self.channel_events[chanid] = event = threading.Event()
+            self.channels_seen[chanid] = True
+            self._channels.put(chanid, chan)
         finally:
             self.lock.release()
         self._send_user_message(m)
